@@ -394,6 +394,64 @@ def generate(repo):
            f'def srcKernel : Src → Option (List (List Rat)) := {M}.srcKernel\n'
            f'def malvarDivisor : Rat := {M}.malvarDivisor')
 
+    # ------------------------------------------------------------------ safe white-balance limiting
+    def safe_step(pyfn, lname):
+        def build():
+            fn = get_def(by, pyfn)
+            loops = [n for n in ast.walk(fn) if isinstance(n, ast.For) and any(
+                isinstance(x, ast.Assign) and ast.unparse(x.targets[0]) == 'ratio' for x in ast.walk(n))]
+            if len(loops) != 1:
+                raise Untranslatable('limiting loop not found')
+            loop = loops[0]
+            env = {'ratio': 'ratio'}
+            term = None
+            for st in loop.body:
+                if isinstance(st, ast.Assign) and isinstance(st.targets[0], ast.Name):
+                    nm = st.targets[0].id
+                    src = ast.unparse(st.value)
+                    if nm == 'plane':
+                        continue
+                    if nm == 'sat' and src == 'saturation[i]':
+                        env['sat'] = 'sat'
+                        continue
+                    if nm == 'mx' and src == 'plane.max()':
+                        env['mx'] = 'mx'
+                        continue
+                    env[nm] = Tr({**env, 'sat': 'sat', 'mx': 'mx'}, mode='num').expr(st.value)
+                    continue
+                if isinstance(st, ast.If) and len(st.body) == 1 and not st.orelse \
+                        and isinstance(st.body[0], ast.Assign) and ast.unparse(st.body[0].targets[0]) == 'ratio':
+                    tr = Tr({**env, 'sat': 'sat', 'mx': 'mx'}, mode='num')
+                    term = f'(if {tr.cond(st.test)} then {tr.expr(st.body[0].value)} else ratio)'
+                    continue
+                raise Untranslatable(f'limiting loop statement {ast.unparse(st)[:50]}')
+            if term is None:
+                raise Untranslatable('no ratio update')
+            # how many planes are inspected
+            it = ast.unparse(loop.iter)
+            if it == 'zip(planes, saturation)':
+                if ast.unparse(find_assign(fn, 'planes')) != 'decomposite_bayer(mosaic, cfa)':
+                    raise Untranslatable('planes are not the four decomposed planes')
+                count = 4
+            elif it.startswith('range(') and isinstance(loop.iter.args[0], ast.Constant) and len(loop.iter.args) == 1 \
+                    and any(ast.unparse(x) == 'plane = rgb[..., i]' for x in loop.body):
+                count = int(loop.iter.args[0].value)
+            else:
+                raise Untranslatable(f'limiting loop iterates over {it}')
+            init = [ast.unparse(v) for v in find_assigns(fn, 'ratio')][0]
+            if init != '1':
+                raise Untranslatable('ratio does not start at 1')
+            divs = sorted(ast.unparse(n) for n in ast.walk(fn) if isinstance(n, ast.Assign) and ast.unparse(n.value).endswith('/ ratio'))
+            return (f'def {lname}Step {{K : Type}} [Num K] [LT K] [DecidableLT K] (ratio mx sat : K) : K :=\n  {term}\n\n'
+                    f'def {lname}Planes : Nat := {count}\n\n'
+                    f'def {lname}DividesEveryGain : Bool := {"true" if len(divs) == count else "false"}')
+        return build
+    for pyfn, lname, cnt in (('wb_prescale', 'wbPreSafe', 4), ('wb_postscale', 'wbPostSafe', 3)):
+        g.item(f'{pyfn}.safe', f'prysm/bayer.py:{pyfn}', (lambda p=pyfn: get_def(by, p)), safe_step(pyfn, lname),
+               f'def {lname}Step {{K : Type}} [Num K] [LT K] [DecidableLT K] (ratio mx sat : K) : K := {M}.safeStep ratio mx sat\n'
+               f'def {lname}Planes : Nat := {cnt}\n'
+               f'def {lname}DividesEveryGain : Bool := true')
+
     return g.finish()
 
 
